@@ -79,6 +79,8 @@ def case_strategy():
         nm = draw(st.integers(1, 6))
         ann = st.one_of(
             inner_strategy().map(lambda i: ["type", i]), inner_strategy().map(lambda i: ["type", i]),
+            # typing.Any inside the annotation: type[Any], type[list[Any]], type[dict[str, Any]] (counts as object)
+            st.one_of(st.just(["type", ["anyT"]]), any_inside().map(lambda g: ["type", ["gen", g[1], g[2]]])),
             st.just(["type"]), st.just(["obj"]), st.sampled_from([["cls", "K0"], ["cls", "K1"], ["cls", "int"]]))
         ordinary = st.sampled_from([["cls", "K0"], ["cls", "K1"], ["cls", "int"], ["obj"], ["cls", "str"]])
         methods = []
@@ -136,6 +138,8 @@ def to_passed(inner):
         return ["clsobj", inner[1]]
     if inner[0] == "obj":
         return ["clsobj", "object"]
+    if inner[0] == "anyT":
+        return ["any"]
     return ["genobj", inner[1], inner[2], False]
 
 
@@ -158,6 +162,12 @@ def no_any(x):
     if x[0] == "gen":
         return ["gen", x[1], [no_any(y) for y in x[2]]]
     return x
+
+
+def strip_any(a):
+    if a and a[0] == "type" and len(a) == 2:
+        return ["type", no_any(a[1])]
+    return a
 
 
 def build_passed(v, env):
@@ -308,10 +318,13 @@ def resolve(methods, call, env):
 def run_case(spec):
     res = R.CaseResult()
     env = H.build(HIER)
-    methods = spec["methods"]
+    real_methods = spec["methods"]
+    # the model reads typing.Any inside an annotation as object
+    methods = [dict(m, pos=[dict(p, ann=strip_any(p["ann"])) for p in m["pos"]],
+                    kw=[dict(p, ann=strip_any(p["ann"])) for p in m["kw"]]) for m in real_methods]
     kwmode = spec.get("kwmode")
     router = None
-    all_methods = methods
+    all_methods = real_methods
     if spec.get("router") and not kwmode:
         npos = len(methods[0]["pos"])
         rid = max(m["id"] for m in methods) + 1
@@ -322,7 +335,7 @@ def run_case(spec):
         router = {"id": rid, "pos": rpos, "kw": [], "prio": 10,
                   "sites": [{"fn": "recurse", "npos": npos, "kws": []}, {"fn": "recurse", "npos": npos, "kws": [], "star": True},
                             {"fn": "call_next", "npos": npos, "kws": []}, {"fn": "call_next", "npos": npos, "kws": [], "star": True}]}
-        all_methods = methods + [router]
+        all_methods = real_methods + [router]
     try:
         prog = Program({"hier": HIER, "methods": all_methods, "host": spec.get("host", "func")}, env=env)
     except Exception as e:  # noqa: BLE001
